@@ -115,7 +115,9 @@ class TextObject:
             # If the motion is exclusive and the end of motion is on the first
             # column, the end position becomes end of previous line.
             end -= 1
-        if self.type == TextObjectType.INCLUSIVE:
+        if self.type in (TextObjectType.INCLUSIVE, TextObjectType.BLOCK):
+            # (A block comes from a visual block selection, which includes
+            # the position under the cursor, like `C-v ... x` does.)
             end += 1
         if self.type == TextObjectType.LINEWISE:
             # Select whole lines
